@@ -1,7 +1,6 @@
 package main
 
 import (
-	"sync"
 	"bytes"
 	"encoding/binary"
 	"errors"
@@ -11,6 +10,7 @@ import (
 	"regexp"
 	"strconv"
 	"strings"
+	"sync"
 
 	"github.com/klauspost/compress/s2"
 	"github.com/klauspost/compress/zstd"
